@@ -55,7 +55,7 @@ def check(ctx, n, r, s, tag, detail=True):
         cls = "canon.%s.%s" % ("band" if band else "far", side)
     for ename, canon, plain, dec in ENCODERS:
         key = "%s|%s|%s|%d" % (ename, tag, side, dist.bit_length()) if detail else None
-        ctx.case(cls, key=key, nontrivial=detail)
+        ctx.case(cls, key=key, nontrivial=detail, sample=dict(encoder=ename, n=n, r=r, s=s, s_minus_half=s - half, expected_s=want_s) if ctx.want(cls) else None)
         try:
             out = canon(r, s, n)
             want = plain(r, want_s, n)
